@@ -15,6 +15,11 @@ Decided:
               an expression into a recursive variant of Expr around *its own previous value* (e = Expr::Not(Box(e)))
               grows the depth with the input without passing the depth guard, so it must not exist in the parser
               unless the depth guard succeeds on every iteration.
+  PANIC-C32e  no explicit panic is reachable from parse_query on input-derived data: a call of Result/Option
+              `unwrap`/`expect` whose receiver derives from a parameter, a field or a captured variable (anything
+              but constants), or a `panic!`/`unreachable!`/`assert!`-family macro, in a function reachable from
+              parse_query. A receiver computed from constants only (`Regex::new("^$").unwrap()`) is accepted: it does
+              not depend on the query. Compiler-inserted checks (bounds, overflow) are values, not decided.
 Not decided: substring/phrase matching semantics of terms (values)."""
 from . import lib
 from .facts import Place, op_place
@@ -101,6 +106,39 @@ def run(ctx):
                     % names, line=cyc[-1][2].line, sink='stack', detail='unguarded-cycle:' + '>'.join(sorted({F.fns[u].key.split('::')[-1] for u, v, c in cyc})))
         elif has_rec:
             ctx.ok('REC-C32a', pq, 'every recursion cycle of the parser passes a depth guard (%s)' % ', '.join(sorted(F.fns[g].key.split('::')[-1] for g in guards)))
+    # ---- explicit panics on input-derived data
+    ctx.rule('PANIC-C32e', 'no unwrap/expect on an input-derived Result/Option and no panic-family macro in the functions reachable from parse_query')
+    if pq is not None:
+        from .c22 import ASSERT_MACROS
+        n_sites = 0
+        n_fn = 0
+        reported = set()
+        for f in list(reach.values()):
+            for body in [f] + F.closures_of(f):
+                n_fn += 1
+                for c in body.calls():
+                    macs = [m.split('::')[-1].rstrip('!') for m in (c.t.get('mac') or c.t.get('macros') or [])]
+                    am = [m for m in macs if m in ASSERT_MACROS]
+                    what = None
+                    if am:
+                        what = am[-1] + '!'
+                    elif c.name in ('unwrap', 'expect') and c.args and ('Result' in c.callee or 'Option' in c.callee):
+                        n_sites += 1
+                        sl = lib.slice_back(body, c.args[0:1], through_calls=True, at=(c.bb, None))
+                        if sl.args or sl.fields or sl.truncated:
+                            what = c.name
+                    if what is None:
+                        continue
+                    ctx.evaluations += 1
+                    key = (f.key, what)
+                    if key in reported:
+                        continue
+                    reported.add(key)
+                    ctx.bad('PANIC-C32e', body, '%s on a value derived from the query text is reachable from parse_query: an input that makes it fail (e.g. a wildcard term whose compiled '
+                            'regex exceeds the size limit) panics instead of returning InvalidQuery' % what, line=c.line, sink='panic', detail='panic-on-input:%s:%s' % (f.key.split('::')[-1], what))
+        ctx.floor('PANIC-C32e', n_fn, 15, 'functions and closures reachable from parse_query')
+        if not reported:
+            ctx.ok('PANIC-C32e', pq, 'no input-derived unwrap/expect and no panic-family macro in %d functions/closures reachable from parse_query (%d constant-only unwrap/expect sites accepted)' % (n_fn, n_sites))
     # ---- tree depth
     ctx.rule('REC-C32d', 'no loop wraps an Expr into a recursive Expr variant around its own previous value without the depth guard')
     if pq is not None:
